@@ -232,16 +232,16 @@ namespace svmon
           It b = v.begin (), e = v.end ();
           CIt cb = cv.begin (), ce = cv.cend ();
           bool iok = (e - b) == n && (ce - cb) == n && (b == cb) && (cb == b) && ! (b != cb) && (e == ce) && It () == It () && CIt () == CIt ();
-          const D ks[3] = { 0, n / 2, n > 0 ? n - 1 : 0 };
+          const D ks[3] = { static_cast<D> (0), static_cast<D> (n / 2), static_cast<D> (n > 0 ? n - 1 : 0) };
           for (int q = 0; q < 3 && n > 0; ++q)
           {
             const D k = ks[q];
             const auto *want = raw (cv.data ()) + k;
             It a = b; a += k;
-            It p = b + k, r = k + b, s = e - (n - k);
-            It t = e; t -= (n - k);
-            It u = b; for (D j = 0; j < k; ++j) { It old = u++; iok = iok && std::addressof (*old) == raw (cv.data ()) + j; }
-            It w = e; for (D j = n; j > k; --j) { It old = w--; iok = iok && (old - b) == j; }
+            It p = b + k, r = k + b, s = e - static_cast<D> (n - k);
+            It t = e; t -= static_cast<D> (n - k);
+            It u = b; for (std::ptrdiff_t j = 0; j < k; ++j) { It old = u++; iok = iok && std::addressof (*old) == raw (cv.data ()) + j; }
+            It w = e; for (std::ptrdiff_t j = n; j > k; --j) { It old = w--; iok = iok && (old - b) == j; }
             CIt cp = p;                          // iterator -> const_iterator conversion
             iok = iok && std::addressof (*a) == want && std::addressof (*p) == want && std::addressof (*r) == want && std::addressof (*s) == want
                   && std::addressof (*t) == want && std::addressof (*u) == want && std::addressof (*w) == want && std::addressof (*cp) == want
